@@ -18,7 +18,7 @@ from vlib import *
 
 VERIF = os.path.dirname(os.path.dirname(os.path.abspath(__file__)))
 REPO_SRC = os.environ.get('VERIF_REPO_SRC', '/repo/src')
-CONTRACTS = os.path.join(VERIF, 'contracts')
+CONTRACTS = os.environ.get('VERIF_CONTRACTS_DEV', os.path.join(VERIF, 'contracts'))   # the env override is a development aid only; no registered command sets it
 PINNED = os.path.join(CONTRACTS, 'pinned')
 SPEC = os.path.join(VERIF, 'spec')
 
